@@ -173,6 +173,7 @@ type loopRec struct {
 
 type fnInfo struct {
 	rpo   map[*ssa.BasicBlock]int
+	depth map[*ssa.BasicBlock]int // loop nesting depth
 	heads map[*ssa.BasicBlock]bool
 	body  map[*ssa.BasicBlock]map[*ssa.BasicBlock]bool // loop head -> blocks of its natural loop
 }
@@ -203,6 +204,12 @@ func (a *Analyzer) infoOf(fn *ssa.Function) *fnInfo {
 				}
 				walk(b)
 			}
+		}
+	}
+	fi.depth = map[*ssa.BasicBlock]int{}
+	for _, body := range fi.body {
+		for b := range body {
+			fi.depth[b]++
 		}
 	}
 	a.fnInfos[fn] = fi
